@@ -72,7 +72,7 @@ Proof. exact (sm_read_all_charts live_conf). Qed.
 
 (* ---- sm_read_denotes, PARTIAL.  Full statement (not proved for all texts):
        forall txt d, sm_denote txt = Some d -> c02_dom d = true -> dialect_ok txt d = true -> has_stops_tag d = true ->
-         exists s, sm_read live_conf pinned txt = Some s /\ read_spec 0 d s = true.
+         exists s, sm_read live_conf current txt = Some s /\ read_spec 0 d s = true.   (no #STOPS guard any more)
    Proved: the row-placement core of it (the three slicing theorems and the pairing theorems above) and the chart
    enumeration; missing: the token-level equivalence of the two parsers on the dialect and the step from the C10
    theorem offsets_integrate to the per-object times.  The full statement is evaluated in Coq on every generated text
@@ -87,23 +87,24 @@ Proof.
                 (slice_row_beat_arith k b (Z.of_nat j) Hk)).
 Qed.
 
-(* ---- defect of the pinned tree: a text without a #STOPS tag is not read (AttributeError); with the proposed repair
-   (stops defaults to an empty list) it is read and denotes what the format says ---- *)
-Theorem C02_sm_read_refuted_no_stops_tag :
-  exists txt, in_c02_domain txt = true /\ sm_read live_conf pinned txt = None.
-Proof. exact sm_read_refuted_no_stops_tag. Qed.
+(* ---- former defect (OLD_stops_none, before d64b5ab): a text without a #STOPS tag was not read (AttributeError);
+   the current reader reads it and returns what the format says ---- *)
+Theorem C02_sm_read_refuted_OLD_no_stops_tag :
+  exists txt, in_c02_domain txt = true /\ sm_read live_conf OLD_stops_none txt = None.
+Proof. exact sm_read_refuted_OLD_no_stops_tag. Qed.
 
-Theorem C02_sm_read_no_stops_tag_repaired :
-  match sm_denote w_read_txt, sm_read live_conf repaired w_read_txt with
+Theorem C02_sm_read_no_stops_tag_current :
+  in_c02_domain w_read_txt = true /\ has_no_stops_item w_read_txt = true /\
+  match sm_denote w_read_txt, sm_read live_conf current w_read_txt with
   | Some d, Some s => read_spec 0 d s
   | _, _ => false end = true.
-Proof. exact sm_read_no_stops_tag_repaired. Qed.
+Proof. exact sm_read_no_stops_tag_current. Qed.
 
 (* non-vacuity: a text in the domain (comments, mid-measure tempo change, hold and roll across measures, a mine)
-   that the pinned reader reads and whose result is exactly the denotation *)
+   that the reader reads and whose result is exactly the denotation *)
 Example C02_example_in_domain :
   in_c02_domain w_read_txt2 = true /\
-  match sm_denote w_read_txt2, sm_read live_conf pinned w_read_txt2 with
+  match sm_denote w_read_txt2, sm_read live_conf current w_read_txt2 with
   | Some d, Some s => read_spec 0 d s && negb (length (d_tempo d) <? 2)%nat && negb (length (flat_map d_notes (d_charts d)) <? 4)%nat
   | _, _ => false end = true.
 Proof. exact sm_read_example. Qed.
